@@ -13,7 +13,12 @@ Part 1 (this file, proved):
    exactly one task, at completion or at registration if it had already completed.
 Part 2 (`Spec/C06Sound.lean`): the invariant tying the operational network to `evalS` for every
 schedule (soundness: a derived future never completes earlier than, or differently from, what
-`evalS` says).
+`evalS` says); the well-formedness side condition on Try values (audit finding 1: `EvOK`, `WFTry`, `WFE`,
+`wellformed_every_schedule`, `illformed_source_excluded`).
+Part 3 (`Spec/C06Methods.lean`, audit finding 7): the `fp.Future` METHODS (`Map`, `Recover`, `RecoverCase`, `Failed`,
+`FlatMap`, `RecoverWith`, `RecoverCaseWith`, `Or`, `OrFuture`) with the concrete Try functions of future.go
+(`Model/FutureMethods.lean`), their `evalS` stated through the C01/C02-verified `TryM.*` functions, and `Apply` with an
+explicitly panicking user function (`apply_completes_on_panic`).
 -/
 namespace FpVerif.Spec.C06
 open FpVerif FpVerif.Fut
@@ -237,7 +242,11 @@ theorem onComplete_pending (p : Nat) (c : CB) (n : Net) (h : n.status p = none) 
   simp [onComplete, h]
 
 /-- A future created by Apply/Apply2/FuncN always completes once its task runs — with the Failure the
-    panic was turned into if the function panicked (the `W (Try Val)` result already is that Try). -/
+    panic was turned into if the function panicked (the `W (Try Val)` result already is that Try).
+    NOTE (audit finding 7): here the `defer recover()` of future_op.go:53-57 is folded into the type of `f`; the
+    statement in which the user function has an explicit panic outcome and the recover is part of the modelled
+    task is `apply_completes_on_panic` / `apply_always_completes` / `applyGo_of` in `Spec/C06Methods.lean`
+    (`mApply f = .apply (applyGo f)`, of which this theorem is the instance `f := applyGo g`). -/
 theorem apply_completes (f : Unit → W (Try Val)) (n : Net) (h : n.status n.next = none) :
     (build (.apply f) n).1 = n.next ∧
     (build (.apply f) n).2.pool = n.pool ++ [Task.applyT f n.next] ∧
